@@ -34,8 +34,19 @@ var skelCalls = map[string]bool{
 	"db.checkpointIfNeeded": true, "db.checkpointWithExecutor": true, "db.exceedsTruncateThreshold": true,
 }
 
+// skelVerifyMode is set while verifyWithExecutor is printed: additionally the calls that decide
+// continuity, the assignments to the fields of the result (info.*, except the free-text reason) and the
+// guards made only of struct fields and constants (exec.state.*, exec.pos.TXID, info.offset vs
+// WALHeaderSize) are printed; guards that mention locals stay "if _".
+var skelVerifyMode bool
+
+var skelVerifyCalls = map[string]bool{"db.lastPageMatch": true, "db.detectFullCheckpoint": true, "os.Stat": true, "os.Open": true}
+
 // assignments whose target matters
 func skelTarget(s string) bool {
+	if skelVerifyMode && strings.HasPrefix(s, "info.") && s != "info.reason" {
+		return true
+	}
 	return strings.HasPrefix(s, "exec.state.")
 }
 
@@ -45,7 +56,71 @@ func skelValue(v string) string {
 	case "true", "false":
 		return v
 	}
+	if skelVerifyMode && v == "WALHeaderSize" {
+		return v
+	}
 	return "expr"
+}
+
+// a guard made only of field atoms: "!exec.state.reachedWALEnd", "exec.state.syncedToWALEnd",
+// "exec.pos.TXID==0", "info.offset==WALHeaderSize"; "" for anything that mentions something else
+func skelFieldTests(e ast.Expr) string {
+	var op token.Token
+	var atoms []string
+	ok := true
+	fieldOperand := func(t string) bool {
+		return strings.HasPrefix(t, "exec.state.") || t == "exec.pos.TXID" || t == "info.offset" || t == "WALHeaderSize" || t == "0" ||
+			t == "info.snapshotting"
+	}
+	var walk func(x ast.Expr)
+	walk = func(x ast.Expr) {
+		switch t := x.(type) {
+		case *ast.ParenExpr:
+			walk(t.X)
+		case *ast.UnaryExpr:
+			if t.Op == token.NOT && fieldOperand(exprText(t.X)) {
+				atoms = append(atoms, "!"+exprText(t.X))
+				return
+			}
+			ok = false
+		case *ast.BinaryExpr:
+			if t.Op == token.LOR || t.Op == token.LAND {
+				if op != 0 && op != t.Op {
+					ok = false
+					return
+				}
+				op = t.Op
+				walk(t.X)
+				walk(t.Y)
+				return
+			}
+			a, b := exprText(t.X), exprText(t.Y)
+			if fieldOperand(a) && fieldOperand(b) && (t.Op == token.EQL || t.Op == token.NEQ) {
+				if b < a { // == and != are symmetric: operand order does not matter
+					a, b = b, a
+				}
+				atoms = append(atoms, a+t.Op.String()+b)
+				return
+			}
+			ok = false
+		default:
+			if fieldOperand(exprText(x)) {
+				atoms = append(atoms, exprText(x))
+				return
+			}
+			ok = false
+		}
+	}
+	walk(e)
+	if !ok || len(atoms) == 0 {
+		return ""
+	}
+	sort.Strings(atoms)
+	sep := " "
+	if op != 0 {
+		sep = " " + op.String() + " "
+	}
+	return strings.Join(atoms, sep)
 }
 
 // mode tests of a condition, independent of operand order and of the other conjuncts:
@@ -125,7 +200,7 @@ func skelExprTokens(e ast.Expr, out *[]string) {
 			return false
 		case *ast.CallExpr:
 			name := exprText(c.Fun)
-			if skelCalls[name] {
+			if skelCalls[name] || (skelVerifyMode && skelVerifyCalls[name]) {
 				*out = append(*out, "call "+name)
 			} else if sel, ok := c.Fun.(*ast.SelectorExpr); ok && sel.Sel.Name == "ExecContext" && len(c.Args) >= 2 {
 				if lit, ok := c.Args[1].(*ast.BasicLit); ok && lit.Kind == token.STRING {
@@ -227,6 +302,8 @@ func skelStmt(st ast.Stmt, out *[]string) {
 				*out = append(*out, "if "+mt+" {")
 			} else if rt := skelResultTests(s.Cond); rt != "" {
 				*out = append(*out, "if "+rt+" {")
+			} else if ft := skelFieldTests(s.Cond); skelVerifyMode && ft != "" {
+				*out = append(*out, "if "+ft+" {")
 			} else {
 				*out = append(*out, "if _ {")
 			}
@@ -254,7 +331,8 @@ func skelStmt(st ast.Stmt, out *[]string) {
 func collectSkeletons(w *World) [][2]any {
 	var res [][2]any
 	p := w.pkgs[""]
-	for _, name := range []string{"checkpointWithExecutor", "execCheckpoint", "Sync", "syncLocked"} {
+	for _, name := range []string{"checkpointWithExecutor", "execCheckpoint", "Sync", "syncLocked", "verifyWithExecutor"} {
+		skelVerifyMode = name == "verifyWithExecutor"
 		fi := p.funcByName(name, "DB")
 		if fi == nil || fi.decl.Body == nil {
 			die("skeleton: func (db *DB) %s not found: the translator no longer understands the source", name)
@@ -266,5 +344,6 @@ func collectSkeletons(w *World) [][2]any {
 		}
 		res = append(res, [2]any{name, out})
 	}
+	skelVerifyMode = false
 	return res
 }
